@@ -44,3 +44,90 @@ func Sleep(d real.Duration) {
 	}
 	real.Sleep(d)
 }
+
+// Timer is time.Timer with a model under the scheduler: a timer that a controlled thread
+// creates becomes a spawned controlled thread which fires (runs f, or delivers on C) at a
+// moment the explorer chooses — any time after its creation, unless it has been stopped before.
+// Durations are not compared: that two timers fire in the order of their deadlines is not
+// something a Go program may rely on across goroutines, and the explored executions are a
+// superset of the timely ones. Outside the scheduler it is a thin wrapper around the real timer.
+type Timer struct {
+	C <-chan real.Time
+	r *real.Timer
+	m *modelTimer
+}
+
+type modelTimer struct {
+	stopped, fired bool
+	f              func()
+	c              chan real.Time
+}
+
+func (m *modelTimer) arm() bool {
+	return sched.Spawn("timer", func() {
+		if m.stopped {
+			return
+		}
+		m.fired = true
+		if m.f != nil {
+			m.f()
+			return
+		}
+		select {
+		case m.c <- Now():
+		default:
+		}
+	})
+}
+
+// AfterFunc mirrors time.AfterFunc.
+func AfterFunc(d real.Duration, f func()) *Timer {
+	if !RealSleep && sched.Controlled() {
+		m := &modelTimer{f: f}
+		if m.arm() {
+			return &Timer{m: m}
+		}
+	}
+	return &Timer{r: real.AfterFunc(d, f)}
+}
+
+// NewTimer mirrors time.NewTimer.
+func NewTimer(d real.Duration) *Timer {
+	if !RealSleep && sched.Controlled() {
+		m := &modelTimer{c: make(chan real.Time, 1)}
+		if m.arm() {
+			return &Timer{C: m.c, m: m}
+		}
+	}
+	r := real.NewTimer(d)
+	return &Timer{C: r.C, r: r}
+}
+
+// After mirrors time.After.
+func After(d real.Duration) <-chan real.Time { return NewTimer(d).C }
+
+// Stop mirrors (*time.Timer).Stop.
+func (t *Timer) Stop() bool {
+	if t.m == nil {
+		return t.r.Stop()
+	}
+	was := !t.m.stopped && !t.m.fired
+	t.m.stopped = true
+	return was
+}
+
+// Reset mirrors (*time.Timer).Reset.
+func (t *Timer) Reset(d real.Duration) bool {
+	if t.m == nil {
+		return t.r.Reset(d)
+	}
+	was := !t.m.stopped && !t.m.fired
+	t.m.stopped = true
+	n := &modelTimer{f: t.m.f, c: t.m.c}
+	t.m = n
+	if !n.arm() {
+		// no longer under the scheduler (execution aborted): nothing will fire
+		n.stopped = true
+	}
+	return was
+}
